@@ -1,9 +1,709 @@
-// C17: not built yet (stub so that main.rs is already wired; replace the body, keep the two signatures).
-use crate::util::Sink;
+// C17: non-negative greedy deconvolution — case generation, implementation observations, and
+// implementation-only relations.
+//
+// case:  c17 <kind> <offlo> <offhi> <lalo> <lahi> <response> <signal>
+//        kind: w (wire response), p (pad response), x (other); floats are 16-hex-digit bit patterns
+// obs:   outcome class ("ok", or "panic" if any of the calls below panicked), then
+//        for every offset in offlo..=offhi, look_ahead in lalo..=lahi (offsets outer):
+//          "<off>.<la>=" nn ;  then "ls=" ls_deconvolution over the same grid ;
+//          kind p: "pad=" the real pad_deconvolution(signal) ;
+//          kind w: "wire=" the real wire_range_deconvolution of a single-wire block holding the signal
+//        nn  = "panic" | <residual> "/" vec ;  vec = <len> ":" i "=" bits "," ... (samples that are not +0.0)
+//        NaN is printed as "nan" whatever its payload.
+// rel17* lines: relations checked on the implementation alone ("holds" / "fails <detail>").
+use crate::util::*;
+use alpha_g_physics::verif;
+use std::panic::AssertUnwindSafe;
 
-pub fn run(_tier: &str, _seed: u64, _s: &mut Sink) {}
+const WIRE_GRID: (usize, usize, usize, usize) = (0, 1, 3, 12);
+const PAD_GRID: (usize, usize, usize, usize) = (3, 5, 7, 12);
+
+// ---------------------------------------------------------------------------------------------
+// printing / parsing
+
+fn fhex(v: &[f64]) -> String {
+    if v.is_empty() {
+        return "-".to_string();
+    }
+    let mut s = String::with_capacity(v.len() * 16);
+    for x in v {
+        s.push_str(&format!("{:016x}", x.to_bits()));
+    }
+    s
+}
+fn parse_floats(s: &str) -> Option<Vec<f64>> {
+    if s == "-" {
+        return Some(Vec::new());
+    }
+    if s.len() % 16 != 0 {
+        return None;
+    }
+    (0..s.len() / 16)
+        .map(|i| u64::from_str_radix(&s[16 * i..16 * i + 16], 16).ok().map(f64::from_bits))
+        .collect()
+}
+fn fbits(x: f64) -> String {
+    if x.is_nan() {
+        "nan".to_string()
+    } else {
+        format!("{:016x}", x.to_bits())
+    }
+}
+fn vec_obs(v: &[f64]) -> String {
+    let mut s = format!("{}:", v.len());
+    let mut first = true;
+    for (i, x) in v.iter().enumerate() {
+        if x.to_bits() != 0 {
+            if !first {
+                s.push(',');
+            }
+            first = false;
+            s.push_str(&format!("{}={}", i, fbits(*x)));
+        }
+    }
+    s
+}
+fn same_bits(a: &[f64], b: &[f64]) -> bool {
+    a.len() == b.len() && a.iter().zip(b).all(|(x, y)| x.to_bits() == y.to_bits())
+}
+
+// ---------------------------------------------------------------------------------------------
+// the real implementation, through the hooks
+
+fn nn_impl(signal: &[f64], resp: &[f64], off: usize, la: usize) -> Option<(f64, Vec<f64>)> {
+    catch(AssertUnwindSafe(|| verif::nn_greedy_deconvolution(signal, resp, off, la)))
+}
+fn ls_impl(signal: &[f64], resp: &[f64], g: (usize, usize, usize, usize)) -> Option<Vec<f64>> {
+    catch(AssertUnwindSafe(|| verif::ls_deconvolution(signal, resp, g.0..=g.1, g.2..=g.3)))
+}
+fn pad_impl(signal: &[f64]) -> Option<Vec<f64>> {
+    catch(AssertUnwindSafe(|| verif::pad_deconvolution(signal)))
+}
+fn empty_wires() -> Box<verif::WireSignals> {
+    Box::new([(); 256].map(|_| None))
+}
+/// the wire path (wires.rs) on a block consisting of the single wire `wire`
+fn single_wire_impl(signal: &[f64], wire: usize) -> Option<Vec<f64>> {
+    let mut ws = empty_wires();
+    ws[wire] = Some(signal.to_vec());
+    catch(AssertUnwindSafe(|| {
+        let ranges = verif::contiguous_ranges(&ws);
+        assert!(ranges.len() == 1);
+        let mut out = verif::wire_range_deconvolution(&ws, ranges[0]);
+        assert!(out.len() == 1 && out[0].0 == wire);
+        out.pop().unwrap().1
+    }))
+}
+
+fn vec_or_panic(o: Option<Vec<f64>>) -> String {
+    match o {
+        None => "panic".to_string(),
+        Some(v) => vec_obs(&v),
+    }
+}
+
+fn observe(kind: &str, g: (usize, usize, usize, usize), resp: &[f64], signal: &[f64]) -> String {
+    let mut s = String::new();
+    for off in g.0..=g.1 {
+        for la in g.2..=g.3 {
+            let o = match nn_impl(signal, resp, off, la) {
+                None => "panic".to_string(),
+                Some((r, inp)) => format!("{}/{}", fbits(r), vec_obs(&inp)),
+            };
+            s.push_str(&format!("{off}.{la}={o} "));
+        }
+    }
+    s.push_str(&format!("ls={}", vec_or_panic(ls_impl(signal, resp, g))));
+    if kind == "p" {
+        if same_bits(resp, &verif::pad_response()) {
+            s.push_str(&format!(" pad={}", vec_or_panic(pad_impl(signal))));
+        } else {
+            s.push_str(" pad=response-of-case-line-is-not-the-pad-response");
+        }
+    }
+    if kind == "w" {
+        if same_bits(resp, &verif::wire_response()) {
+            s.push_str(&format!(" wire={}", vec_or_panic(single_wire_impl(signal, 0))));
+        } else {
+            s.push_str(" wire=response-of-case-line-is-not-the-wire-response");
+        }
+    }
+    // outcome class first: "panic" if any call panicked
+    format!("{} {s}", if s.contains("panic") { "panic" } else { "ok" })
+}
+
+// ---------------------------------------------------------------------------------------------
+// plain re-statement of the scheme (oracle of the rel17plain relation): one sample at a time,
+// no skipping; argmin = first strict minimum
+
+fn plain_nn(signal: &[f64], response: &[f64], off: usize, la: usize) -> (f64, Vec<f64>) {
+    let rw = &response[off..off + la];
+    assert!(rw.iter().all(|&x| x < 0.0));
+    let n = signal.len();
+    let mut res = signal.to_vec();
+    let mut inp = vec![0.0; n];
+    let mut i = 0;
+    while i + off + la <= n {
+        let mut any_nonneg = false;
+        for j in 0..la {
+            if res[i + off + j] >= 0.0 {
+                any_nonneg = true;
+            }
+        }
+        if !any_nonneg {
+            let mut val = res[i + off] / rw[0];
+            for j in 1..la {
+                val = val.min(res[i + off + j] / rw[j]);
+            }
+            inp[i] = val;
+            let m = (n - i).min(response.len());
+            for j in 0..m {
+                res[i + j] -= val * response[j];
+            }
+        }
+        i += 1;
+    }
+    let mut sum = -0.0;
+    for x in &res {
+        sum += x * x;
+    }
+    (sum, inp)
+}
+fn plain_ls(signal: &[f64], response: &[f64], g: (usize, usize, usize, usize)) -> Vec<f64> {
+    let mut best = f64::INFINITY;
+    let mut best_in = Vec::new();
+    for off in g.0..=g.1 {
+        for la in g.2..=g.3 {
+            let (r, inp) = plain_nn(signal, response, off, la);
+            if r < best {
+                best = r;
+                best_in = inp;
+            }
+        }
+    }
+    best_in
+}
+
+// ---------------------------------------------------------------------------------------------
+// relations on the implementation alone
+
+fn resp_of(kind: &str) -> (Vec<f64>, (usize, usize, usize, usize)) {
+    if kind == "p" {
+        (verif::pad_response(), PAD_GRID)
+    } else {
+        (verif::wire_response(), WIRE_GRID)
+    }
+}
+fn deconv_of(kind: &str, signal: &[f64]) -> Option<Vec<f64>> {
+    if kind == "p" {
+        pad_impl(signal)
+    } else {
+        single_wire_impl(signal, 0)
+    }
+}
+fn good(v: &[f64], n: usize) -> Result<(), String> {
+    if v.len() != n {
+        return Err(format!("length {} for {} input samples", v.len(), n));
+    }
+    for (i, x) in v.iter().enumerate() {
+        if !x.is_finite() {
+            return Err(format!("sample {i} not finite"));
+        }
+        if !(*x >= 0.0) {
+            return Err(format!("sample {i} negative: {x:e}"));
+        }
+    }
+    Ok(())
+}
+
+/// outputs finite, >= 0, one per input sample: every grid point, and the production entry point
+fn rel_prop(kind: &str, signal: &[f64]) -> Result<(), String> {
+    let (resp, g) = resp_of(kind);
+    let n = signal.len();
+    for off in g.0..=g.1 {
+        for la in g.2..=g.3 {
+            let (r, inp) = nn_impl(signal, &resp, off, la).ok_or(format!("nn {off} {la} panics"))?;
+            good(&inp, n).map_err(|e| format!("nn {off} {la}: {e}"))?;
+            if !r.is_finite() || r < 0.0 {
+                return Err(format!("nn {off} {la}: residual {r:e}"));
+            }
+        }
+    }
+    let ls = ls_impl(signal, &resp, g).ok_or("ls panics")?;
+    good(&ls, n).map_err(|e| format!("ls: {e}"))?;
+    let d = deconv_of(kind, signal).ok_or("entry point panics")?;
+    good(&d, n).map_err(|e| format!("entry point: {e}"))?;
+    if !same_bits(&d, &ls) {
+        return Err("entry point differs from ls_deconvolution over the documented grid".into());
+    }
+    Ok(())
+}
+
+/// scaling every sample by 2^k scales every output by exactly 2^k (residual by 4^k), no decision changes
+fn rel_scale(kind: &str, k: i32, signal: &[f64]) -> Result<(), String> {
+    let (resp, g) = resp_of(kind);
+    let c = 2f64.powi(k);
+    let scaled: Vec<f64> = signal.iter().map(|x| x * c).collect();
+    for off in g.0..=g.1 {
+        for la in g.2..=g.3 {
+            let (r0, i0) = nn_impl(signal, &resp, off, la).ok_or("panic")?;
+            let (r1, i1) = nn_impl(&scaled, &resp, off, la).ok_or("panic")?;
+            let want: Vec<f64> = i0.iter().map(|x| x * c).collect();
+            if !same_bits(&want, &i1) {
+                return Err(format!("nn {off} {la}: outputs not scaled exactly"));
+            }
+            if (r0 * c * c).to_bits() != r1.to_bits() {
+                return Err(format!("nn {off} {la}: residual not scaled exactly"));
+            }
+        }
+    }
+    let d0 = deconv_of(kind, signal).ok_or("panic")?;
+    let d1 = deconv_of(kind, &scaled).ok_or("panic")?;
+    let want: Vec<f64> = d0.iter().map(|x| x * c).collect();
+    if !same_bits(&want, &d1) {
+        return Err("entry point: outputs not scaled exactly".into());
+    }
+    Ok(())
+}
+
+/// the production routine equals the plain one-sample-at-a-time scheme, bit for bit
+fn rel_plain(kind: &str, signal: &[f64]) -> Result<(), String> {
+    let (resp, g) = resp_of(kind);
+    for off in g.0..=g.1 {
+        for la in g.2..=g.3 {
+            let (r0, i0) = nn_impl(signal, &resp, off, la).ok_or("panic")?;
+            let (r1, i1) = plain_nn(signal, &resp, off, la);
+            if !same_bits(&i0, &i1) || (r0.to_bits() != r1.to_bits() && !(r0.is_nan() && r1.is_nan())) {
+                return Err(format!("nn {off} {la} differs from the plain sweep"));
+            }
+        }
+    }
+    let d = deconv_of(kind, signal).ok_or("panic")?;
+    let p = plain_ls(signal, &resp, g);
+    if !same_bits(&d, &p) {
+        return Err("entry point differs from the plain scheme".into());
+    }
+    Ok(())
+}
+
+/// isolated response-shaped pulse of amplitude a at k (k + 18 <= n) on a single-wire block at `wire`
+fn rel_pulse(wire: usize, n: usize, k: usize, a: f64) -> Result<(), String> {
+    if k + 18 > n || wire >= 256 {
+        return Err("bad case".into());
+    }
+    let resp = verif::wire_response();
+    let mut signal = vec![0.0; n];
+    for j in k..n.min(k + resp.len()) {
+        signal[j] = a * resp[j - k];
+    }
+    let out = single_wire_impl(&signal, wire).ok_or("panic")?;
+    if out.len() != n {
+        return Err(format!("length {} for {} samples", out.len(), n));
+    }
+    for (i, x) in out.iter().enumerate() {
+        if i == k {
+            if !((x - a).abs() < 1e-6 * a) {
+                return Err(format!("amplitude at {k}: {x:e} for {a:e}"));
+            }
+        } else if !(x.abs() <= 1e-6 * a) {
+            return Err(format!("residue {x:e} at {i} (pulse {a:e} at {k})"));
+        }
+    }
+    Ok(())
+}
+
+fn block_signals(first: usize, len: usize, seed: u64) -> Box<verif::WireSignals> {
+    let mut r = Rng::new(seed ^ 0xB10C);
+    let resp = verif::wire_response();
+    let mut ws = empty_wires();
+    let style = r.below(4);
+    let base = r.range(0, 120) as usize;
+    for j in 0..len {
+        let w = (first + j) % 256;
+        let n = match style {
+            0 => base,                                  // uniform
+            1 => r.range(0, 160) as usize,              // arbitrary, zero-length allowed
+            2 => if j == len / 2 { 200 } else { base }, // one long channel
+            _ => base + j % 3,
+        };
+        let mut s = vec![0.0; n];
+        for _ in 0..r.below(3) {
+            if n > 0 {
+                let k = r.below(n as u64) as usize;
+                let a = 1.0 + 2000.0 * unit(&mut r);
+                for t in k..n.min(k + resp.len()) {
+                    s[t] += a * resp[t - k];
+                }
+            }
+        }
+        for x in s.iter_mut() {
+            *x = (*x + 20.0 * (unit(&mut r) - 0.5)).round();
+        }
+        ws[w] = Some(s);
+    }
+    ws
+}
+
+/// multi-wire block: one output channel per input channel (in ring order), output length = longest signal,
+/// outputs finite and >= 0; exact 2^k scaling of the whole block
+fn rel_block(first: usize, len: usize, seed: u64) -> Result<(), String> {
+    if first >= 256 || len == 0 || len > 256 {
+        return Err("bad case".into());
+    }
+    let ws = block_signals(first, len, seed);
+    let longest = (0..len).map(|j| ws[(first + j) % 256].as_ref().unwrap().len()).max().unwrap();
+    let out = catch(AssertUnwindSafe(|| {
+        let ranges = verif::contiguous_ranges(&ws);
+        (ranges.clone(), ranges.iter().map(|r| verif::wire_range_deconvolution(&ws, *r)).collect::<Vec<_>>())
+    }))
+    .ok_or("panic")?;
+    let (ranges, outs) = out;
+    if ranges.len() != 1 {
+        return Err(format!("{} ranges for one block", ranges.len()));
+    }
+    let want_range = if len == 256 { (0, 256) } else { (first, (first + len - 1) % 256 + 1) };
+    if ranges[0] != want_range {
+        return Err(format!("range {:?}, expected {:?}", ranges[0], want_range));
+    }
+    let o = &outs[0];
+    if o.len() != len {
+        return Err(format!("{} output channels for {} input channels", o.len(), len));
+    }
+    let start = if len == 256 { 0 } else { first };
+    for (j, (w, v)) in o.iter().enumerate() {
+        if *w != (start + j) % 256 {
+            return Err(format!("channel {j} is wire {w}"));
+        }
+        good(v, longest).map_err(|e| format!("wire {w}: {e}"))?;
+    }
+    // scaling every sample of the block by 2^k scales every output by exactly 2^k (Cholesky solve included)
+    let c = 2f64.powi((seed % 41) as i32 - 20);
+    let mut scaled = empty_wires();
+    for j in 0..len {
+        let w = (first + j) % 256;
+        scaled[w] = Some(ws[w].as_ref().unwrap().iter().map(|x| x * c).collect());
+    }
+    let o2 = catch(AssertUnwindSafe(|| verif::wire_range_deconvolution(&scaled, ranges[0]))).ok_or("panic (scaled)")?;
+    for ((w, v), (w2, v2)) in o.iter().zip(&o2) {
+        let want: Vec<f64> = v.iter().map(|x| x * c).collect();
+        if w != w2 || !same_bits(&want, v2) {
+            return Err(format!("wire {w}: outputs of the block scaled by {c:e} are not scaled exactly"));
+        }
+    }
+    Ok(())
+}
+
+/// table facts used by C17_isolated_pulse_exact(_Q) and by the assert of the routine: every response
+/// window of the production grids is negative (wire: samples 0..13; pad: samples 3..17)
+fn rel_table() -> Result<(), String> {
+    let w = verif::wire_response();
+    let p = verif::pad_response();
+    if w.len() < 13 || !w[..13].iter().all(|&x| x < 0.0) {
+        return Err("wire response: first 13 samples not all negative".into());
+    }
+    if p.len() < 17 || !p[3..17].iter().all(|&x| x < 0.0) {
+        return Err("pad response: samples 3..17 not all negative".into());
+    }
+    if !w.iter().chain(p.iter()).all(|x| x.is_finite()) {
+        return Err("response not finite".into());
+    }
+    Ok(())
+}
+
+fn verdict(r: Result<(), String>) -> String {
+    match r {
+        Ok(()) => "holds".to_string(),
+        Err(e) => format!("fails {e}"),
+    }
+}
+
+// ---------------------------------------------------------------------------------------------
+// generators
+
+fn unit(r: &mut Rng) -> f64 {
+    (r.next() >> 11) as f64 / (1u64 << 53) as f64
+}
+fn log_uniform(r: &mut Rng, lo: f64, hi: f64) -> f64 {
+    (lo.ln() + unit(r) * (hi.ln() - lo.ln())).exp()
+}
+fn length(r: &mut Rng) -> usize {
+    match r.below(10) {
+        0 => r.range(1, 20) as usize,
+        1..=4 => r.range(1, 80) as usize,
+        5..=7 => r.range(80, 250) as usize,
+        8 => r.range(250, 700) as usize,
+        _ => r.pick(&[1usize, 2, 3, 12, 13, 14, 16, 17, 18, 19, 511, 699, 700]),
+    }
+}
+fn amplitude(r: &mut Rng) -> f64 {
+    match r.below(6) {
+        0 => 1.0,
+        1 => 1e4,
+        2 => r.range(1, 10000) as f64,
+        _ => log_uniform(r, 1.0, 1e4),
+    }
+}
+
+/// sums of 0..=8 response-shaped pulses + noise, integer-rounded or not
+fn pulses(r: &mut Rng, resp: &[f64], n: usize) -> (Vec<f64>, String) {
+    let mut s = vec![0.0; n];
+    let np = r.below(9) as usize;
+    for _ in 0..np {
+        let k = if r.chance(1, 3) { n - 1 - (r.below(20) as usize).min(n - 1) } else { r.below(n as u64) as usize };
+        let a = amplitude(r);
+        for t in k..n.min(k + resp.len()) {
+            s[t] += a * resp[t - k];
+        }
+    }
+    let mag = r.pick(&[0.0, 0.0, 0.01, 1.0, 10.0, 100.0, 1000.0]);
+    if mag > 0.0 {
+        for x in s.iter_mut() {
+            *x += mag * (2.0 * unit(r) - 1.0);
+        }
+    }
+    let rounded = r.chance(1, 2);
+    if rounded {
+        for x in s.iter_mut() {
+            *x = x.round();
+        }
+    }
+    (s, format!("pulses{}{}{}", np.min(3), if mag > 0.0 { "-noise" } else { "" }, if rounded { "-int" } else { "" }))
+}
+
+fn special(r: &mut Rng, n: usize, which: u64) -> (Vec<f64>, &'static str) {
+    let mut v = vec![0.0; n];
+    let label = match which {
+        0 => {
+            for x in v.iter_mut() {
+                *x = 1.0 + 1000.0 * unit(r);
+            }
+            "all-positive"
+        }
+        1 => {
+            for x in v.iter_mut() {
+                *x = -(1.0 + 1000.0 * unit(r));
+            }
+            "all-negative"
+        }
+        2 => "zeros",
+        3 => {
+            for x in v.iter_mut() {
+                *x = if r.chance(1, 2) { -0.0 } else { 0.0 };
+            }
+            "signed-zeros"
+        }
+        4 => {
+            for x in v.iter_mut() {
+                *x = -r.pick(&[5e-324, 1e-310, 2.2250738585072014e-308, 1e-300, 1e-200]) * (1.0 + unit(r));
+                if r.chance(1, 5) {
+                    *x = -*x;
+                }
+            }
+            "tiny"
+        }
+        5 => {
+            for x in v.iter_mut() {
+                *x = -r.pick(&[1e150, 1e154, 1e160, 1e300, f64::MAX / 4.0]) * (1.0 + unit(r));
+                if r.chance(1, 5) {
+                    *x = -*x;
+                }
+            }
+            "huge"
+        }
+        6 => {
+            for x in v.iter_mut() {
+                *x = -1000.0 * unit(r);
+                if r.chance(1, 8) {
+                    *x = r.pick(&[f64::NAN, -f64::NAN, f64::INFINITY, f64::NEG_INFINITY, f64::MAX, f64::MIN]);
+                }
+            }
+            "nan-inf"
+        }
+        _ => {
+            for x in v.iter_mut() {
+                *x = f64::from_bits(r.next());
+            }
+            "random-bits"
+        }
+    };
+    (v, label)
+}
+
+fn emit(s: &mut Sink, kind: &str, g: (usize, usize, usize, usize), resp: &[f64], signal: &[f64], label: &str) {
+    let o = observe(kind, g, resp, signal);
+    // non-trivial: the sweep loop is entered for at least one grid point and nothing panics
+    let nontrivial = signal.len() >= g.0 + g.2 && !o.contains("panic");
+    s.put(
+        &format!("c17 {kind} {} {} {} {} {} {}", g.0, g.1, g.2, g.3, fhex(resp), fhex(signal)),
+        &o,
+        &format!("{kind}-{label}"),
+        nontrivial,
+    );
+}
+fn emit_rel(s: &mut Sink, line: String, label: &str) {
+    let o = observe_line(&line).unwrap();
+    s.put(&line, &o, label, true);
+}
+
+pub fn run(tier: &str, seed: u64, s: &mut Sink) {
+    let mut r = Rng::new(seed ^ 0xC17);
+    let thorough = tier == "thorough";
+    let wire = verif::wire_response();
+    let pad = verif::pad_response();
+    let mul = if thorough { 10 } else { 1 };
+
+    // --- differential cases: structured waveforms on the two production responses
+    for _ in 0..700 * mul {
+        for (kind, resp, own, other) in [("w", &wire, WIRE_GRID, PAD_GRID), ("p", &pad, PAD_GRID, WIRE_GRID)] {
+            let n = length(&mut r);
+            let (sig, label) = pulses(&mut r, resp, n);
+            // the other grid too (pad response with offset 0 trips the assert: window not negative)
+            let g = if r.chance(1, 6) { other } else { own };
+            emit(s, kind, g, resp, &sig, &label);
+        }
+    }
+    // --- boundary lengths around offset + look_ahead for every grid point, pulse at the very end
+    for (kind, resp, g) in [("w", &wire, WIRE_GRID), ("p", &pad, PAD_GRID)] {
+        for n in 0..=20usize {
+            let mut sig = vec![0.0; n];
+            for (t, x) in sig.iter_mut().enumerate() {
+                *x = 100.0 * resp[t + g.0];
+            }
+            emit(s, kind, g, resp, &sig, "short");
+            let (sig, _) = if n > 0 { pulses(&mut r, resp, n) } else { (vec![], String::new()) };
+            emit(s, kind, g, resp, &sig, "short");
+        }
+    }
+    // --- special values
+    for _ in 0..12 * mul {
+        for which in 0..8 {
+            for (kind, resp, g) in [("w", &wire, WIRE_GRID), ("p", &pad, PAD_GRID)] {
+                let n = length(&mut r).min(if which >= 4 { 120 } else { 700 });
+                let (mut sig, label) = special(&mut r, n, which);
+                if which >= 4 && r.chance(1, 2) {
+                    // a special sample inside an ordinary waveform
+                    let (mut base, _) = pulses(&mut r, resp, n);
+                    for _ in 0..=r.below(3) {
+                        let i = r.below(n as u64) as usize;
+                        base[i] = sig[i];
+                    }
+                    sig = base;
+                }
+                emit(s, kind, g, resp, &sig, label);
+            }
+        }
+    }
+    // --- other responses and grids: window not negative (assert), slices out of range, look_ahead 0,
+    //     empty grids, response shorter than the signal / than the window
+    for _ in 0..300 * mul {
+        let rl = r.boundary(30) as usize;
+        let mut resp: Vec<f64> = (0..rl).map(|_| -(0.01 + 50.0 * unit(&mut r))).collect();
+        if rl > 0 && r.chance(1, 4) {
+            let i = r.below(rl as u64) as usize;
+            resp[i] = r.pick(&[0.0, -0.0, 1.0, f64::NAN, f64::NEG_INFINITY, -1e-320]);
+        }
+        let offlo = r.boundary(6) as usize;
+        let offhi = (offlo + r.below(3) as usize).saturating_sub(r.chance(1, 10) as usize);
+        let lalo = r.boundary(8) as usize;
+        let lahi = (lalo + r.below(4) as usize).saturating_sub(r.chance(1, 10) as usize);
+        let n = r.boundary(60) as usize;
+        let (sig, _) = if n > 0 && !resp.is_empty() { pulses(&mut r, &resp, n) } else { (vec![-1.0; n], String::new()) };
+        emit(s, "x", (offlo, offhi, lalo, lahi), &resp, &sig, "other-response");
+    }
+
+    // --- relations on the implementation alone
+    emit_rel(s, "rel17table".to_string(), "rel-table-facts");
+    for _ in 0..150 * mul {
+        for kind in ["w", "p"] {
+            let (resp, _) = resp_of(kind);
+            let n = length(&mut r);
+            let (sig, _) = pulses(&mut r, &resp, n);
+            emit_rel(s, format!("rel17prop {kind} {}", fhex(&sig)), "rel-finite-nonneg-length");
+            emit_rel(s, format!("rel17plain {kind} {}", fhex(&sig)), "rel-equals-plain");
+            let k = r.range(0, 40) as i32 - 20;
+            emit_rel(s, format!("rel17scale {kind} {k} {}", fhex(&sig)), "rel-scale");
+        }
+    }
+    for k in -20..=20 {
+        for kind in ["w", "p"] {
+            let (resp, _) = resp_of(kind);
+            let n = length(&mut r);
+            let (sig, _) = pulses(&mut r, &resp, n);
+            emit_rel(s, format!("rel17scale {kind} {k} {}", fhex(&sig)), "rel-scale");
+        }
+    }
+    // isolated pulse at several ring positions
+    let ring: Vec<usize> = if thorough { (0..256).collect() } else { vec![0, 1, 15, 16, 127, 128, 254, 255] };
+    for &w in &ring {
+        for _ in 0..(if thorough { 6 } else { 12 }) {
+            let n = r.range(18, 700) as usize;
+            let k = match r.below(4) {
+                0 => 0,
+                1 => n - 18,
+                _ => r.below((n - 17) as u64) as usize,
+            };
+            let a = amplitude(&mut r);
+            emit_rel(s, format!("rel17pulse {w} {n} {k} {:016x}", a.to_bits()), "rel-isolated-pulse");
+        }
+    }
+    // multi-wire blocks of every length at seam positions
+    let lens: Vec<usize> = if thorough {
+        (1..=256).collect()
+    } else {
+        let mut v = vec![1, 2, 3, 4, 5, 6, 7, 8, 9, 10, 16, 17, 100, 255, 256];
+        for _ in 0..6 {
+            v.push(r.range(1, 256) as usize);
+        }
+        v
+    };
+    for &len in &lens {
+        let mut firsts = vec![0usize, 256 - len.min(255), (256 - len / 2) % 256, 255];
+        if thorough {
+            firsts.push(r.below(256) as usize);
+            firsts.push(r.below(256) as usize);
+        }
+        firsts.dedup();
+        for first in firsts {
+            let sd = r.next() >> 16;
+            emit_rel(s, format!("rel17block {first} {len} {sd}"), "rel-block-shape");
+        }
+    }
+}
 
 /// implementation observation for a case line of this module (None: not one of mine)
-pub fn observe_line(_line: &str) -> Option<String> {
-    None
+pub fn observe_line(line: &str) -> Option<String> {
+    let t: Vec<&str> = line.split(' ').collect();
+    let bad = || Some("bad-case-line".to_string());
+    match t[0] {
+        "c17" => {
+            if t.len() != 8 {
+                return bad();
+            }
+            let p = |s: &str| s.parse::<usize>().ok();
+            let (Some(a), Some(b), Some(c), Some(d)) = (p(t[2]), p(t[3]), p(t[4]), p(t[5])) else { return bad() };
+            let (Some(resp), Some(sig)) = (parse_floats(t[6]), parse_floats(t[7])) else { return bad() };
+            Some(observe(t[1], (a, b, c, d), &resp, &sig))
+        }
+        "rel17prop" | "rel17plain" if t.len() == 3 => {
+            let Some(sig) = parse_floats(t[2]) else { return bad() };
+            Some(verdict(if t[0] == "rel17prop" { rel_prop(t[1], &sig) } else { rel_plain(t[1], &sig) }))
+        }
+        "rel17scale" if t.len() == 4 => {
+            let (Ok(k), Some(sig)) = (t[2].parse::<i32>(), parse_floats(t[3])) else { return bad() };
+            Some(verdict(rel_scale(t[1], k, &sig)))
+        }
+        "rel17pulse" if t.len() == 5 => {
+            let p = |s: &str| s.parse::<usize>().ok();
+            let (Some(w), Some(n), Some(k), Some(a)) = (p(t[1]), p(t[2]), p(t[3]), parse_floats(t[4])) else { return bad() };
+            Some(verdict(rel_pulse(w, n, k, a[0])))
+        }
+        "rel17table" if t.len() == 1 => Some(verdict(rel_table())),
+        "rel17block" if t.len() == 4 => {
+            let (Ok(f), Ok(l), Ok(sd)) = (t[1].parse::<usize>(), t[2].parse::<usize>(), t[3].parse::<u64>()) else {
+                return bad();
+            };
+            Some(verdict(rel_block(f, l, sd)))
+        }
+        _ => None,
+    }
 }
